@@ -81,6 +81,7 @@ type c19Item struct {
 type c19Mod struct {
 	bind  int
 	all   bool
+	empty bool // with all: `__all__ = []` (star import binds nothing) instead of ['a', '_u']
 	items []c19Item
 }
 
@@ -99,6 +100,9 @@ func (cs *c19Case) enc() string {
 			b.WriteString([]string{"-", "e", "l"}[m.bind])
 			if m.all {
 				b.WriteString("A")
+			}
+			if m.empty {
+				b.WriteString("0")
 			}
 		}
 		b.WriteString(":")
@@ -143,9 +147,11 @@ func c19ItemSrc(who string, i int, it c19Item) (stmt []string, probe string) {
 	panic("bad item")
 }
 
-func c19BindSrc(k int, all bool) string {
+func c19BindSrc(k int, all bool, empty ...bool) string {
 	s := "a = " + itoa(10*k) + "\n_u = " + itoa(10*k+1) + "\nc = " + itoa(10*k+2) + "\n"
-	if all {
+	if all && len(empty) > 0 && empty[0] {
+		s += "__all__ = []\n"
+	} else if all {
 		s += "__all__ = ['a', '_u']\n"
 	}
 	return s
@@ -160,7 +166,7 @@ func c19Src(cs *c19Case, k int) string {
 		b.WriteString("import vh\nvh.log('" + who + "')\nvh.probe()\n")
 	}
 	if m.bind == 1 {
-		b.WriteString(c19BindSrc(k, m.all))
+		b.WriteString(c19BindSrc(k, m.all, m.empty))
 	}
 	for i, it := range m.items {
 		stmt, probe := c19ItemSrc(who, i, it)
@@ -179,7 +185,7 @@ func c19Src(cs *c19Case, k int) string {
 		}
 	}
 	if m.bind == 2 {
-		b.WriteString(c19BindSrc(k, m.all))
+		b.WriteString(c19BindSrc(k, m.all, m.empty))
 	}
 	b.WriteString("vh.log('" + who + ".')\n")
 	return b.String()
@@ -285,11 +291,13 @@ func (m *c19Model) importModule(name string) (*c19MMod, string) {
 	return mod, ""
 }
 
-func (m *c19Model) bindBlock(mod *c19MMod, k int, all bool) {
+func (m *c19Model) bindBlock(mod *c19MMod, k int, all bool, empty ...bool) {
 	mod.ns["a"] = c19Val{k: 'i', i: 10 * k}
 	mod.ns["_u"] = c19Val{k: 'i', i: 10*k + 1}
 	mod.ns["c"] = c19Val{k: 'i', i: 10*k + 2}
-	if all {
+	if all && len(empty) > 0 && empty[0] {
+		mod.ns["__all__"] = c19Val{k: 'l', l: []string{}}
+	} else if all {
 		mod.ns["__all__"] = c19Val{k: 'l', l: []string{"a", "_u"}}
 	}
 }
@@ -303,7 +311,7 @@ func (m *c19Model) runBody(mod *c19MMod, k int) string {
 		m.log = append(m.log, c19Q(who))
 	}
 	if def.bind == 1 {
-		m.bindBlock(mod, k, def.all)
+		m.bindBlock(mod, k, def.all, def.empty)
 	}
 	for i, it := range def.items {
 		exc := m.execItem(mod, who, i, it)
@@ -316,7 +324,7 @@ func (m *c19Model) runBody(mod *c19MMod, k int) string {
 		}
 	}
 	if def.bind == 2 {
-		m.bindBlock(mod, k, def.all)
+		m.bindBlock(mod, k, def.all, def.empty)
 	}
 	m.log = append(m.log, c19Q(who+"."))
 	return ""
@@ -898,8 +906,9 @@ func c19Diff(exp, got *c19Result) string {
 // enumeration
 
 type c19Flav struct {
-	bind int
-	all  bool
+	bind  int
+	all   bool
+	empty bool
 }
 
 type c19Alpha struct {
@@ -936,7 +945,7 @@ func c19Enumerate(b c19Bounds, emit func(cs *c19Case) bool) {
 func (g *c19Gen) module(mi int) {
 	g.cs.mods = append(g.cs.mods, c19Mod{})
 	for _, f := range g.b.flavours {
-		g.cs.mods[mi].bind, g.cs.mods[mi].all = f.bind, f.all
+		g.cs.mods[mi].bind, g.cs.mods[mi].all, g.cs.mods[mi].empty = f.bind, f.all, f.empty
 		g.cs.mods[mi].items = g.cs.mods[mi].items[:0]
 		g.items(mi, 0)
 		if g.stop {
@@ -1124,8 +1133,8 @@ func c19Space(quick bool, visit func(part, form string, cs *c19Case, via string)
 	core = []c19Alpha{{ckImport, false}, {ckImport, true}, {ckFromA, false}, {ckFromA, true}, {ckStar, false},
 		{ckFromMissing, false}, {ckFromMissing, true}, {ckNoSuch, false}, {ckNoSuch, true}, {ckMut, false}}
 	coreGo = nil // the Go-registered targets are covered by the full alphabet
-	allFlav := []c19Flav{{1, false}, {1, true}, {2, false}, {2, true}}
-	coreFlav := []c19Flav{{1, false}, {2, true}}
+	allFlav := []c19Flav{{1, false, false}, {1, true, false}, {2, false, false}, {2, true, false}, {1, true, true}}
+	coreFlav := []c19Flav{{1, false, false}, {2, true, false}}
 
 	fullTotal := 2
 	if !quick {
@@ -1195,7 +1204,7 @@ func c19Space(quick bool, visit func(part, form string, cs *c19Case, via string)
 				continue // four modules: import, from, star-all only
 			}
 			b := c19Bounds{nmax: x.n, perMod: x.per, total: -1, exactN: x.n, alpha: []c19Alpha{{f.kind, false}}, norepeat: true,
-				flavours: []c19Flav{{1, f.all}, {2, f.all}}}
+				flavours: []c19Flav{{1, f.all, false}, {2, f.all, false}, {1, f.all, f.all}}}
 			c19Enumerate(b, func(cs *c19Case) bool {
 				if !visit("graphs", f.name, cs, "source") {
 					stop = true
@@ -1220,6 +1229,9 @@ func c19Run(rc *core.RunCtx) {
 		}
 		return true
 	})
+	if !rc.Expired() && !rc.Done() {
+		c19Dotted(rc)
+	}
 }
 
 func init() {
